@@ -371,3 +371,11 @@ RULES = [
     ("C11.R9", "T8", "both READ arms record the series state returned with the first fragment", r9),
     ("C11.R10", "T2", "a deferred READ holds exactly the headers of the last READ received (shared with C14.R7)", r10),
 ]
+
+
+def r11(ctx):
+    """'an orderly series': fragment n+1 carries the 4-bit successor of fragment n's sequence number (shared code, also C04.R12)."""
+    app_sequence_wrap(ctx)
+
+
+RULES.append(("C11.R11", "T11/T2", "the application sequence number is a 4-bit counter wrapping 15 -> 0 (shared with C04.R12)", r11))
